@@ -240,6 +240,141 @@ def reactor_tables(repo, w):
     w("")
 
 
+def split_if_else(body):
+    """straight-line body or one top-level `if(c){A}else{B}` preceded by declarations -> list of branch texts"""
+    m = re.search(r"\bif\s*\(", body)
+    if not m:
+        return [body]
+    # find matching ')' of the condition
+    i = body.index("(", m.start())
+    depth, j = 0, i
+    while j < len(body):
+        if body[j] == "(":
+            depth += 1
+        elif body[j] == ")":
+            depth -= 1
+            if depth == 0:
+                break
+        j += 1
+    rest = body[j + 1:].lstrip()
+    if not rest.startswith("{"):
+        raise Untranslatable("device entry point: if without a block")
+    depth, k = 0, 0
+    while k < len(rest):
+        if rest[k] == "{":
+            depth += 1
+        elif rest[k] == "}":
+            depth -= 1
+            if depth == 0:
+                break
+        k += 1
+    then_part = rest[1:k]
+    after = rest[k + 1:].lstrip()
+    pre = body[:m.start()]
+    if after.startswith("else"):
+        after = after[4:].lstrip()
+        if not after.startswith("{"):
+            raise Untranslatable("device entry point: else without a block")
+        depth, q = 0, 0
+        while q < len(after):
+            if after[q] == "{":
+                depth += 1
+            elif after[q] == "}":
+                depth -= 1
+                if depth == 0:
+                    break
+            q += 1
+        else_part = after[1:q]
+        tail = after[q + 1:]
+        return [pre + then_part + tail, pre + else_part + tail]
+    return [pre + then_part + after, pre + after]
+
+
+def count_completions(txt):
+    posts = len(re.findall(r"\bpost\s*\(\s*h\b", txt)) + len(re.findall(r"(?<![\w>.])h\s*\(", txt))
+    arms = len(re.findall(r"\bon_readable\s*\(", txt)) + len(re.findall(r"\bon_writeable\s*\(", txt)) + len(re.findall(r"->\s*run\s*\(\s*\)", txt))
+    return posts, arms
+
+
+def device_tables(repo, w):
+    def prep(path):
+        t = strip_c_comments(open(os.path.join(repo, path)).read())
+        return re.sub(r"#ifdef\s+BOOSTER_AIO_FORCE_POLL(.*?)#else(.*?)#endif", lambda m: m.group(2), t, flags=re.S)
+    dev = prep("booster/lib/aio/src/basic_io_device.cpp")
+    ss = prep("booster/lib/aio/src/stream_socket.cpp")
+    ac = prep("booster/lib/aio/src/acceptor.cpp")
+    # dont_block overloads: what the error branch does
+    for kind, sig in (("Io", r"bool\s+basic_io_device::dont_block\s*\(\s*io_handler\s+const\s*&\s*h\s*\)\s*\{"),
+                      ("Ev", r"bool\s+basic_io_device::dont_block\s*\(\s*event_handler\s+const\s*&\s*h\s*\)\s*\{")):
+        body = function_body(dev, sig)
+        m = re.match(r"\s*if\s*\(\s*nonblocking_was_set_\s*\)\s*return\s+true\s*;\s*system::error_code\s+e\s*;\s*set_non_blocking\(true,e\)\s*;\s*if\s*\(\s*e\s*\)\s*", body)
+        if not m:
+            raise Untranslatable("basic_io_device::dont_block: prologue shape")
+        rest = body[m.end():]
+        if rest.startswith("{"):
+            depth, k = 0, 0
+            while k < len(rest):
+                if rest[k] == "{":
+                    depth += 1
+                elif rest[k] == "}":
+                    depth -= 1
+                    if depth == 0:
+                        break
+                k += 1
+            then_part, after = rest[1:k], rest[k + 1:]
+        else:
+            k = rest.index(";")
+            then_part, after = rest[:k + 1], rest[k + 1:]
+        after = re.sub(r"^\s*else\s*(\{[^{}]*\}|[^;]*;)", "", after)      # the else part is not on the error path
+        posts = len(re.findall(r"\bpost\s*\(\s*h\b", then_part))
+        r = re.search(r"\breturn\s+(true|false)\s*;", then_part)
+        if not r:
+            r = re.search(r"\breturn\s+(true|false)\s*;", after)
+            posts += len(re.findall(r"\bpost\s*\(\s*h\b", after[:r.start()] if r else after))
+        if not r:
+            raise Untranslatable("basic_io_device::dont_block: no return on the error path")
+        w(f"/-- `dont_block({'io_handler' if kind == 'Io' else 'event_handler'})`, branch `if(e)`: number of `post(h,…)`, value returned -/")
+        w(f"def dontBlock{kind}PostsOnError : Nat := {posts}")
+        w(f"def dontBlock{kind}ReturnsOnError : Bool := {r.group(1)}")
+    entries = []
+    for src, cls, name, sigrx, kind in (
+            (ss, "stream_socket", "async_write_some", r"void\s+stream_socket::async_write_some\s*\([^)]*io_handler\s+const\s*&\s*h\s*\)\s*\{", "io"),
+            (ss, "stream_socket", "async_read_some", r"void\s+stream_socket::async_read_some\s*\([^)]*io_handler\s+const\s*&\s*h\s*\)\s*\{", "io"),
+            (ss, "stream_socket", "async_connect", r"void\s+stream_socket::async_connect\s*\([^)]*event_handler\s+const\s*&\s*h\s*\)\s*\{", "ev"),
+            (ss, "stream_socket", "async_read", r"void\s+stream_socket::async_read\s*\([^)]*io_handler\s+const\s*&\s*h\s*\)\s*\{", "io"),
+            (ss, "stream_socket", "async_write", r"void\s+stream_socket::async_write\s*\([^)]*io_handler\s+const\s*&\s*h\s*\)\s*\{", "io"),
+            (ac, "acceptor", "async_accept", r"void\s+acceptor::async_accept\s*\([^)]*event_handler\s+const\s*&\s*h\s*\)\s*\{", "ev")):
+        body = function_body(src, sigrx)
+        g = re.match(r"\s*if\s*\(\s*!dont_block\(h\)\s*\)\s*return\s*;", body)
+        rest = body[g.end():] if g else body
+        branches = [count_completions(b) for b in split_if_else(rest)]
+        entries.append((cls + "::" + name, kind, bool(g), branches))
+    w("/-- asynchronous entry points of the device wrappers: (name, handler kind, first statement is `if(!dont_block(h)) return;`,")
+    w("    for every branch after the guard: (completions of h posted or called, waits armed / continuation objects started)) -/")
+    w("def deviceEntries : List (String × String × Bool × List (Nat × Nat)) := [")
+    w(",\n".join(f"  ({lean_str(n)}, {lean_str(k)}, {str(g).lower()}, [" + ", ".join(f"({a}, {b})" for a, b in br) + "])" for n, k, g, br in entries))
+    w("]\n")
+
+
+def epoll_cache_shape(repo, w):
+    rsrc = strip_c_comments(open(os.path.join(repo, "booster/lib/aio/src/reactor.cpp")).read())
+    ep = class_body(rsrc, "epoll_reactor")
+    body = function_body(ep, r"virtual\s+void\s+select\s*\(\s*native_type\s+fd\s*,\s*int\s+flags\s*,\s*int\s*&\s*error\s*\)\s*\{")
+    m = re.fullmatch(r"\s*if\s*\(\s*!check\(fd,error\)\s*\)\s*return\s*;\s*"
+                     r"if\s*\(\s*events_\[fd\]\s*!=\s*0\s*&&\s*flags\s*==\s*0\s*\)\s*write_flag\(fd,EPOLL_CTL_DEL,0,error\)\s*;\s*"
+                     r"else\s+if\s*\(\s*events_\[fd\]\s*==\s*0\s*&&\s*flags\s*!=\s*0\s*\)\s*write_flag\(fd,EPOLL_CTL_ADD,to_poll_events\(flags\),error\)\s*;\s*"
+                     r"else\s+if\s*\(\s*events_\[fd\]\s*!=\s*flags\s*\)\s*write_flag\(fd,EPOLL_CTL_MOD,to_poll_events\(flags\),error\)\s*;\s*"
+                     r"(if\s*\(\s*error\s*\)\s*return\s*;\s*)?events_\[fd\]\s*=\s*flags\s*;\s*", body)
+    if not m:
+        raise Untranslatable("epoll_reactor::select: DEL/ADD/MOD decision on the cache events_[fd] followed by events_[fd]=flags")
+    wf = function_body(ep, r"void\s+write_flag\s*\(\s*int\s+fd\s*,\s*int\s+op\s*,\s*int\s+flags\s*,\s*int\s*&\s*error\s*\)\s*\{")
+    if not re.search(r"if\s*\(\s*::epoll_ctl\(pollfd_,op,fd,&efd\)\s*<\s*0\s*\)\s*\{\s*error\s*=\s*errno\s*;\s*return\s*;\s*\}", wf):
+        raise Untranslatable("epoll_reactor::write_flag: shape")
+    w("/-- epoll_reactor::select: DEL if cache≠0∧flags=0, ADD if cache=0∧flags≠0, MOD if cache≠flags (shape verified); the new interest")
+    w("    set is recorded in `events_[fd]` also when epoll_ctl failed (no early return before `events_[fd]=flags`) -/")
+    w(f"def epollRecordsOnError : Bool := {'false' if m.group(1) else 'true'}\n")
+
+
 def main(repo, lean, extra=None):
     io_path = os.path.join(repo, "booster/lib/aio/src/io_service.cpp")
     tp_path = os.path.join(repo, "src/thread_pool.cpp")
@@ -456,6 +591,8 @@ def main(repo, lean, extra=None):
         raise Untranslatable("thread_pool::stop: shape")
     w("def poolShapesChecked : Bool := true\n")
     reactor_tables(repo, w)
+    epoll_cache_shape(repo, w)
+    device_tables(repo, w)
     w("end Cppcms.C17.Gen")
     path = os.path.join(lean, "Cppcms", "C17", "Gen.lean")
     write_if_changed(path, "\n".join(o) + "\n")
